@@ -74,7 +74,14 @@ def main(ck, tier, w):
         for k in range(2 if quick else 12):
             jobs.append((coin, k))
         jobs.append((coin, -1))         # text payloads, every callback with -vv
+        jobs.append((coin, -2))         # template-shaped scripts around data pushes of any length
     texts = text_scripts()
+    looks = []
+    lr = random.Random('%d-c14-looks' % seed)
+    for L in (0, 1, 19, 21, 33, 61, 75, 76, 80, 255, 256, 520, 9000):
+        dta = lr.randbytes(L)
+        pd = btc.push(dta, [None, 1, 2, 4][L % 4] if L <= 75 else [1, 2, 4][L % 3] if L <= 255 else [2, 4][L % 2])
+        looks += [b'\x76\xa9' + pd + b'\x88\xac', b'\xa9' + pd + b'\x87', pd + b'\xac']
 
     def one(j):
         coin, k = j
@@ -87,7 +94,10 @@ def main(ck, tier, w):
 
         def txs_fn(h, c):
             txs = [btc.coinbase(h, None, outs=[{'val': 50 * 10 ** 8, 'spk': btc.p2pkh(r0.randbytes(20))}])]
-            if h >= 1 and k == -1:
+            if h >= 1 and k == -2:
+                txs.append({'ver': 1, 'ins': [{'txid': r0.randbytes(32), 'idx': 1, 'sig': b'\x01\x01', 'seq': 5}],
+                            'outs': [{'val': 100 + n, 'spk': x} for n, x in enumerate(looks[h - 1::3])] + [{'val': 5, 'spk': btc.p2pkh(r0.randbytes(20))}], 'lock': h})
+            elif h >= 1 and k == -1:
                 txs.append({'ver': 1, 'ins': [{'txid': r0.randbytes(32), 'idx': 1, 'sig': b'\x01\x01', 'seq': 5}],
                             'outs': [{'val': n, 'spk': x} for n, x in enumerate(texts[h - 1::3])], 'lock': h})
             elif h >= 1:
@@ -107,7 +117,7 @@ def main(ck, tier, w):
         probs = []
         last = None
         for cb in cbs:
-            r = run.run_parser(d, cb, dump=w.mk('out') if cb in cbs[:3] else None, coin=coin, timeout=120, verbose=(k + len(cb)) % 3 if k >= 0 else 2)
+            r = run.run_parser(d, cb, dump=w.mk('out') if cb in cbs[:3] else None, coin=coin, timeout=120, verbose=(k + len(cb)) % 3 if k != -1 else 2)
             last = r
             if r.rc != 0:
                 probs.append('%s: exit status %d: %s' % (cb, r.rc, r.stderr[-300:]))
